@@ -2,7 +2,7 @@
 get_statuses(time=tmin) of every SIR/SIS simulator and wrapper, over all calling conventions; both-given => EoNError;
 initially recovered nodes are never infected later; wrappers start the same epidemic as the function they wrap."""
 from fractions import Fraction as F
-import common, allsims, predchecks, inithist
+import common, allsims, predchecks, inithist, gen, rng as rngmod
 from predchecks import strip
 from allsims import SIR
 
@@ -93,6 +93,111 @@ def rho_grid(ctx):
                               % (sim, rho, n, i0, s0, want), rep)
 
 
+def generated_model(ctx, items):
+    """the Lean code GENERATED from the argument normalisation at the head of every simulator (harness/pyargs2lean.py ->
+    Gen/ArgsGen.lean), run by its own driver on the same arguments and sample draws as the implementation; plus the
+    conflicting-argument combinations (rho with initial_infecteds / with initial_recovereds): same exception or same
+    normalised list."""
+    import fcntl, subprocess, os, json, pyargs2lean, EoN
+    lean = common.LEAN
+    os.makedirs(os.path.join(lean, ".audit"), exist_ok=True)
+    with open(os.path.join(lean, ".audit", "gengill.lock"), "w") as lock:
+        fcntl.flock(lock, fcntl.LOCK_EX)
+        try:
+            _, errors = pyargs2lean.regenerate()
+        except Exception as e:
+            errors = {"translator": "crashed: %r" % e}
+        if errors:
+            ctx.disagreement("generated-args:translation", dict(entry="argument normalisation", errors=errors))
+            return
+        p = common.lake(["build", "driverargs"])
+    if p.returncode != 0:
+        ctx.disagreement("generated-args:build", dict(entry="argument normalisation", log="\n".join(
+            l for l in (p.stdout + p.stderr).splitlines() if "error" in l)[:1500]))
+        return
+    reqs, metas = [], []
+    for rep, c, out, infs in items:
+        li = out["lab_index"]
+        init = c["init"]
+        rq = dict(sim=c["sim"], n=c["n"], rho=None, infs=None, recs=None, tape=[d for d in out["tape"] if d[0] == "s"][:1])
+        if init["kind"] == "list":
+            rq["infs"] = out.get("init_order") or [li[i] for i in init["nodes"]]
+        elif init["kind"] == "single":
+            rq["infs"] = li[init["node"]]
+        elif init["kind"] == "rho":
+            rq["rho"] = init["rho"]
+        if c["sim"] in allsims.HAS_RECS and c.get("recs"):
+            rq["recs"] = [li[i] for i in c["recs"]]
+        reqs.append(rq)
+        metas.append((rep, dict(ok=True, infs=list(infs))))
+    # conflicting / unusual combinations, straight calls
+    for sim in SIMS:
+        for k in range(ctx.scale(6, 30)):
+            c = allsims.gen_case(ctx.rng, sim)
+            c["prewarm"] = False
+            G, lab = allsims.build_graph(c)
+            idx = gen.index_of(G)
+            n = c["n"]
+            nodes = list(range(n))
+            combo = ["rho+infs", "rho+recs", "rho+single", "rho-only"][k % 4]
+            rho = ctx.rng.choice([F(1, 4), F(1, 2), F(3, 4)])
+            kw = dict(rho=float(rho))
+            rq = dict(sim=sim, n=n, rho=str(rho), infs=None, recs=None)
+            if combo == "rho+infs":
+                ii = ctx.rng.sample(nodes, ctx.rng.randint(1, min(2, n)))
+                kw["initial_infecteds"] = [lab(i) for i in ii]
+                rq["infs"] = [idx[lab(i)] for i in ii]
+            elif combo == "rho+single":
+                i = ctx.rng.choice(nodes)
+                kw["initial_infecteds"] = lab(i)
+                rq["infs"] = idx[lab(i)]
+            elif combo == "rho+recs":
+                if sim not in allsims.HAS_RECS:
+                    continue
+                jj = ctx.rng.sample(nodes, ctx.rng.randint(1, min(2, n)))
+                kw["initial_recovereds"] = [lab(i) for i in jj]
+                rq["recs"] = [idx[lab(i)] for i in jj]
+            tr = rngmod.TapeRandom(rng=ctx.rng, idx=idx)
+            rules = allsims.Rules(c, lab, idx)
+            c2 = dict(c, init=dict(kind="none"), recs=[], _objs=kw)
+            rep = dict(entry=sim, stream="generated-args", combo=combo, case=strip(c), kw={k_: str(v) for k_, v in kw.items()})
+            try:
+                allsims.call_sim(c2, G, lab, tr, False, rules)
+                s_ = next((d for d in tr.log if d[0] == "s"), None)
+                impl = dict(ok=True, infs=list(s_[1]) if s_ else None)
+            except Exception as e:
+                impl = dict(ok=False, err=allsims.err_enum(e))
+                if impl["err"] != "EoNError" and combo == "rho+recs":
+                    # rho together with initial_recovereds is rejected only by fast_nonMarkov_SIR / fast_SIR; the other
+                    # SIR simulators sample from all nodes and crash later (KeyError) when a sampled node is also
+                    # listed as recovered — overlapping sets are outside C05's quantifier (DESIGN §6, "seen but
+                    # outside"); the normalisation itself has succeeded, which is what is compared here
+                    s_ = next((d for d in tr.log if d[0] == "s"), None)
+                    if s_ is not None:
+                        impl = dict(ok=True, infs=list(s_[1]))
+                        ctx.count("generated-args:rho+recs:crashed-after-normalisation")
+            rq["tape"] = [d for d in tr.log if d[0] == "s"][:1]
+            reqs.append(rq)
+            metas.append((rep, impl))
+            ctx.count("generated-args:" + combo)
+    exe = os.path.join(lean, ".lake", "build", "bin", "driverargs")
+    data = "\n".join(json.dumps(q, separators=(",", ":")) for q in reqs) + "\n"
+    q = subprocess.run([exe], input=data, capture_output=True, text=True)
+    lines = q.stdout.splitlines()
+    if q.returncode != 0 or len(lines) != len(reqs):
+        raise RuntimeError("driverargs crashed: " + q.stderr[-1000:])
+    for (rep, impl), line in zip(metas, lines):
+        g = json.loads(line)
+        ctx.count("generated-args-runs")
+        if impl["ok"] != bool(g.get("ok")):
+            ctx.disagreement("generated-args:outcome", dict(rep, impl=impl, generated=g))
+        elif not impl["ok"]:
+            if impl["err"] != g.get("err"):
+                ctx.disagreement("generated-args:exception", dict(rep, impl=impl, generated=g))
+        elif impl["infs"] is not None and impl["infs"] != g["infs"]:
+            ctx.disagreement("generated-args:initial nodes", dict(rep, impl=impl, generated=g))
+
+
 def run(ctx):
     drv = ctx.drv = common.LeanDriver()
     both_given(ctx)
@@ -100,6 +205,7 @@ def run(ctx):
     per = ctx.scale(120, 600)
     reqs, metas = [], []
     nreqs, nmetas = [], []
+    gitems = []
     for sim in SIMS:
         for k in range(per):
             c = allsims.gen_case(ctx.rng, sim)
@@ -126,6 +232,7 @@ def run(ctx):
                 continue
             nreqs.append(inithist.norminit_requests(c, out))
             nmetas.append((rep, infs))
+            gitems.append((rep, c, out, infs))
             if c["init"]["kind"] == "rho":
                 want = int(round(G.order() * float(F(c["init"]["rho"]))))
                 if len(infs) != want or len(set(infs)) != len(infs):
@@ -194,3 +301,4 @@ def run(ctx):
         ctx.count("norminit:%s" % rep["case"]["init"]["kind"])
         if not r.get("ok") or r["infs"] != list(infs):
             ctx.disagreement("norminit", dict(rep, impl=list(infs), model=r))
+    generated_model(ctx, gitems)
